@@ -121,6 +121,8 @@ def run(ctx):
     ctx.notes["correspondence"] = {"fc": {"cases": n, "mismatches": len(bad)}}
     # the default message of the shipped base evaluator (C08_default_message)
     _default_message_check(ctx)
+    # keys for which FcEvaluator ships predefined methods (931..935), evaluated by a user's OWN methods of the same names
+    ctx.add_eval(_own_93x_check(ctx))
     # format-constraint evaluators that really suspend, with different latencies per key: the verdict is the Boolean value, whatever the completion order
     from vlib import latency
 
@@ -180,6 +182,68 @@ def _default_message_check(ctx):
     if err or bad:
         ctx.broke("correspondence mismatch (default message of FcEvaluator)", err or str([terms[i] for i in bad]))
     ctx.add_eval(n)
+
+
+def _own_93x_check(ctx):
+    """a user-supplied FcEvaluator that defines evaluate_931..935 itself: its truth assignment decides, also for these keys"""
+    import asyncio
+
+    import inject
+    from efoli import EdifactFormat, EdifactFormatVersion
+    from ahbicht.content_evaluation.evaluationdatatypes import EvaluatableData, EvaluatableDataProvider
+    from ahbicht.content_evaluation.fc_evaluators import FcEvaluator
+    from ahbicht.content_evaluation.token_logic_provider import SingletonTokenLogicProvider, TokenLogicProvider
+    from ahbicht.expressions.format_constraint_expression_evaluation import format_constraint_evaluation
+    from ahbicht.models.condition_nodes import EvaluatedFormatConstraint
+    from vlib import evalimpl
+
+    fmt, ver = EdifactFormat.UTILMD, EdifactFormatVersion.FV2210
+    truth = {}
+
+    class Own(FcEvaluator):
+        edifact_format, edifact_format_version = fmt, ver
+
+    def make(k, is_async):
+        if is_async:
+            async def ev(self, entered_input):  # pylint: disable=unused-argument
+                await asyncio.sleep(0)
+                return EvaluatedFormatConstraint(format_constraint_fulfilled=truth[k], error_message=None if truth[k] else f"{k} nicht erfüllt")
+        else:
+            def ev(self, entered_input):  # pylint: disable=unused-argument
+                return EvaluatedFormatConstraint(format_constraint_fulfilled=truth[k], error_message=None if truth[k] else f"{k} nicht erfüllt")
+        return ev
+
+    keys = ["931", "932", "933", "934", "935", "901"]
+    for i, k in enumerate(keys):
+        setattr(Own, f"evaluate_{k}", make(k, i % 2 == 0))
+    own = Own()
+
+    def cfg(binder):
+        binder.bind(TokenLogicProvider, SingletonTokenLogicProvider([own]))
+        binder.bind_to_provider(EvaluatableDataProvider, lambda: EvaluatableData(body={}, edifact_format=fmt, edifact_format_version=ver))
+
+    inject.clear_and_configure(cfg)
+    n = 0
+    try:
+        for t in [("xor", ("L", "932"), ("L", "933")), ("and", ("L", "932"), ("L", "933")), ("or", ("and", ("L", "934"), ("L", "935")), ("L", "901")),
+                  ("L", "933"), ("L", "935"), ("xor", ("L", "931"), ("and", ("L", "933"), ("L", "934")))]:
+            ks = sorted(set(exprs.leaves(t)))
+            s = exprs.to_string(t)
+            for vals in itertools.product((True, False), repeat=len(ks)):
+                truth.clear()
+                truth.update(dict(zip(ks, vals)))
+                raw = evalimpl.outcome(lambda: asyncio.run(format_constraint_evaluation(s)))
+                n += 1
+                want = exprs.beval(t, dict(truth))
+                got = raw[1].format_constraints_fulfilled if raw[0] == "ok" else f"raises {raw[1]}"
+                if got != want or (raw[0] == "ok" and (raw[1].error_message is not None) != (not want)):
+                    ctx.fail(f"{s}|{sorted(truth.items())}|own-93x", {"fc_expression": s, "fc": dict(truth), "evaluator": "a user's FcEvaluator defining evaluate_931..935 itself"},
+                             f"fulfilled={want}, message iff unfulfilled", f"fulfilled={got}" + (f" message={raw[1].error_message!r}" if raw[0] == "ok" else ""),
+                             "oracle: Boolean value under the truth assignment the user's evaluator implements (keys that also have predefined methods)")
+    finally:
+        inject.clear()
+        evalimpl._configured = False  # pylint: disable=protected-access
+    return n
 
 
 def replay(path):
